@@ -6,9 +6,9 @@ CONSTANTS
   Toks <- TokS
   MaxParts = 2
   Methods = {"GET", "POST"}
-  Binds = {2, 3, 4}
+  Binds = {2, 4}
   WsKinds = {FALSE, TRUE}
-  ExportEvery = 5
+  ExportEvery = 23
 INIT Init
 NEXT Next
 INVARIANT ExportCase
